@@ -178,7 +178,7 @@ func (e *vUniteEnv) checkStream() {
 		}
 	}
 	vAssert(vIsClosed(e.d.output), "C03: the output is closed after the input was closed and flushed")
-	vAssert(vWatchHits() == 0, "C03/C08: the discipline never writes into a slice it has delivered (a consumer that keeps the slices until the output closes still reads exactly the input stream)")
+	vAssert(vWatchHits() == 0, "C03/C08/C11: the discipline never writes into a slice it has delivered (a consumer that keeps the slices until the output closes still reads exactly the input stream, every input slice whole inside one output slice)")
 	// C11: every output slice is a concatenation of WHOLE input slices, in order
 	k := 0 // next input slice
 	for _, o := range e.outVals {
